@@ -440,10 +440,15 @@ func opThreadLast(env *LEnv, args *LVal) *LVal {
 		cells := make([]*LVal, 0, len(expr.Cells)+1)
 		cells = append(cells, expr.Cells...)
 		cells = append(cells, val)
+		// The call that runs is the one written as expr with val threaded
+		// in: it keeps expr's location, so an error it raises (and its
+		// stack frame) points at expr rather than nowhere.
+		call := SExpr(cells)
+		call.source = expr.source
 		if i == len(exprs)-1 {
-			return env.Terminal(SExpr(cells))
+			return env.Terminal(call)
 		}
-		val = env.Eval(SExpr(cells))
+		val = env.Eval(call)
 		if val.Type == LError {
 			return val
 		}
@@ -469,10 +474,12 @@ func opThreadFirst(env *LEnv, args *LVal) *LVal {
 		cells = append(cells, expr.Cells[0])
 		cells = append(cells, val)
 		cells = append(cells, expr.Cells[1:]...)
+		call := SExpr(cells) // located at expr, see opThreadLast
+		call.source = expr.source
 		if i == len(exprs)-1 {
-			return env.Terminal(SExpr(cells))
+			return env.Terminal(call)
 		}
-		val = env.Eval(SExpr(cells))
+		val = env.Eval(call)
 		if val.Type == LError {
 			return val
 		}
